@@ -163,6 +163,7 @@ func (s *SerialDB) Get(key []byte) ([]byte, error) {
 		s.mutBatch.RUnlock()
 		return nil, common.ErrKeyNotFound
 	}
+	verifPause("serial.get.afterIsRemoved")
 
 	data := s.batch.Get(key)
 	s.mutBatch.RUnlock()
